@@ -545,6 +545,8 @@ def run(ctx):
     ctx.guarded('C17-D1', 'sfcf@pairing', d6_sfcf_pairing, ctx)
     ctx.guarded('C17-D5', 'openQCD@relabelling', d7_relabelling, ctx)
     from .. import unusedparams, leakedloop, aliasloop
+    n_buf = ctx.guarded('C17-D5', 'input/openQCD.py@loop-buffers', aliasloop.stale_buffer, ctx, 'C17-D5', ctx.repo.mod('input.openQCD'),
+                        ['read_rwms', '_extract_flowed_energy_density', '_read_flow_obs', 'read_ms5_xsf'])
     for mn_ in ('input.openQCD', 'input.hadrons', 'input.sfcf', 'input.misc', 'input.utils'):
         ctx.guarded('C17-D5', mn_ + '@charset-strip', aliasloop.charset_strip, ctx, 'C17-D5', ctx.repo.mod(mn_))
     ctx.rule('C17-D6', 'every accepted option is read (no silently ignored parameter); no loop variable read after its loop')
